@@ -43,6 +43,13 @@ def obligations(tier):
            bounds="3 parenthesisations x 3x3 operators x 4 qualifiers x 3 positions x %s atoms" % ("4" if tier == "quick" else "22")),
         CH("programmatic_models", H, "programmatic", t, mode="E1s", functions=FP, stubs=[ANTLR],
            bounds="7 strings needing escapes/quotes x 3 model shapes (AND list, parenthetical OR, qualified FOLLOWEDBY) x NOT x 4 comparison classes"),
+        CH("mixed_object_types", H, "mixed_types", t, mode="E1s", functions=FV[7:9] + ["stix2.patterns._BooleanExpression.__init__"] + FP, stubs=[ANTLR],
+           bounds="7 four-atom AND/OR shapes x 3^4 assignments of 3 object types; patterns with an AND over disjoint types carry no claim"),
+        CH("programmatic_paths", H, "programmatic_paths", t, mode="E1s", functions=FP + ["stix2.patterns.ListObjectPathComponent.__str__",
+           "stix2.patterns._ObjectPathComponent.create_ObjectPathComponent", "stix2.patterns.ObjectPath.make_object_path"], stubs=[ANTLR],
+           bounds="9 programmatic object paths (list/reference/basic components, names needing quotes, string lhs) x NOT x 3 wrappers"),
+        CH("programmatic_reuse", H, "programmatic_reuse", t, mode="E1s", functions=["stix2.patterns._BooleanExpression.__init__",
+           "stix2.patterns.ParentheticalExpression.__init__"], bounds="a shared parenthetical OR used in two AND/OR expressions x 3^4 object types"),
         CH("exists_comparison", H, "exists_test", t, mode="E1s", functions=FV[-2:], stubs=[ANTLR], finding="C10-exists", bounds="[NOT] EXISTS x 3 paths"),
         JOB("string_escaping", "props.j_esc", "job_escape", 600, functions=FP[7:8],
             bounds="every printable-ASCII string of length <= %d (symbolic characters)" % (4 if tier == "quick" else 6)),
